@@ -115,6 +115,43 @@ def run(tier):
                 chk.violation("normal-form", f"{atoms[j]} differs from its normal form at {bad[0]}",
                               {"input": atoms[j], "constructed": tr.logics[built[j][4]].smt(built[j][5]),
                                "assignment": {k: str(v) for k, v in bad[0].items()}, "input_value": bad[1], "constructed_value": bad[2]})
+    # ---- (4) the axioms that eliminate div / mod of a non-constant dividend: x is pinned to a by two bounds (no substitution, no
+    # folding), then (div x d) and (mod x d) must be exactly the Euclidean quotient and remainder of the Lean mirror
+    dsmall = [1, -1, 2, -2, 3, -3, 7, -7, 10, -10, 2**31, -2**31, 2**31 + 1, -(2**32 + 1)]
+    asmall = [0, 1, -1, 2, -2, 5, -5, 7, -7, 9, -10, 100, -101, 2**31 - 1, -2**31, 2**32 + 3, -(2**33 + 5)]
+    pairs4 = [(a, d) for a in asmall for d in dsmall]
+    if tier == "quick":
+        pairs4 = rng.sample(pairs4, 48)
+    qr = lean_int([x for a, d in pairs4 for x in (f"fdiv {a} {d}", f"fmod {a} {d}")])
+    axioms = 0
+    for k in range(0, len(pairs4), 12):
+        chunk = pairs4[k:k + 12]
+        lines = ["(set-logic QF_LIA)", "(declare-fun x () Int)"]
+        expect = []
+        for j, (a, d) in enumerate(chunk):
+            q, r = qr[2 * (k + j)], qr[2 * (k + j) + 1]
+            pin = [f"(assert (>= x {ilit(a)}))", f"(assert (<= x {ilit(a)}))"]
+            same = f"(and (= (div x {ilit(d)}) {ilit(int(q))}) (= (mod x {ilit(d)}) {ilit(int(r))}))"
+            lines += ["(push 1)"] + pin + [f"(assert {same})", "(check-sat)", "(pop 1)"]; expect.append(("sat", a, d, q, r))
+            lines += ["(push 1)"] + pin + [f"(assert (not {same}))", "(check-sat)", "(pop 1)"]; expect.append(("unsat", a, d, q, r))
+        script = "\n".join(lines) + "\n"
+        out, err, rc = runner.run_opensmt(binary, script, None, timeout=120)
+        if rc == "timeout":
+            continue
+        ans = runner.answers(out)
+        if len(ans) != len(expect):
+            chk.obligation(False)
+            chk.violation("front-end", f"{len(expect)} checks but {len(ans)} answers", {"script": script[:3000], "stdout": out[-500:]}, found_input=False)
+            continue
+        for (want_a, a, d, q, r), got in zip(expect, ans):
+            axioms += 1
+            chk.case(key=("axiom", want_a, a, d), sample={"x": a, "d": d, "div": q, "mod": r, "expected": want_a, "answer": got} if axioms % 41 == 1 else None)
+            ok = got == want_a
+            chk.obligation(ok)
+            if not ok:
+                chk.violation("elimination", f"x = {a}: (div x {d}) = {q} and (mod x {d}) = {r} by the Lean mirror (Euclidean), but with x pinned to {a} "
+                                             f"opensmt answers {got} where {want_a} is the only correct answer",
+                              {"x": a, "d": d, "div": q, "mod": r, "expected": want_a, "answer": got, "script": script})
     # ---- (3) negation of difference constraints: Converter<SafeInt>::negate vs negateDL (and exact getValue)
     exe = common.compile_harness("dl_negate", ["dl_negate.cc"], link_lib=True)
     vals = [v for v in INTS if -2**63 + 2 < v < 2**63 - 2]
@@ -132,4 +169,4 @@ def run(tier):
     return chk.finish(rule="(1) every (a, d) of a boundary lattice x {div, mod} folded by the front end vs the Lean mirror; "
                            "(2) integer comparison atoms with non-unit coefficients vs their constructed normal forms on an "
                            "integer grid incl. values beyond 2^31; (3) Converter<SafeInt>::negate/getValue on the lattice",
-                      extra={"folds_compared": folds, "atoms_compared": n_atoms, "negate_values": len(vals)})
+                      extra={"folds_compared": folds, "atoms_compared": n_atoms, "negate_values": len(vals), "elimination_checks": axioms})
